@@ -334,6 +334,31 @@ class SchedOracle:
     self.n = 0
     if not consistent_resume:
       self.last = None
+    # per-step observations of THIS callback object's lifetime
+    self.life_last = None
+    self.begun = False
+
+  def observe(self, where):
+    """Every event (update step or not): within one callback object's lifetime
+    the factor of every knob never decreases.  The first on_train_begin of a
+    callback object (re)initialises the knobs to 0 - a transient the library
+    documents ("pretrain without quantization") - and is the start of the
+    lifetime, so it is not compared with what came before."""
+    if not self.begun:
+      self.begun = True
+      self.life_last = None
+    qs = knob_quantizers(self.model)
+    if not qs:
+      return
+    lo = min(factor_of(q) for _, _, q in qs)
+    self.ctx.checked()
+    if self.life_last is not None and lo < self.life_last - 1e-6:
+      self.ctx.violation("scheduler|factor-decreased-between-update-steps",
+                         "%s: a knob went from %r to %r during one scheduler's "
+                         "lifetime; cb=%r" % (where, self.life_last, lo,
+                                              self.cb))
+      return
+    self.life_last = lo
 
   def event(self, where):
     """Called right after the callback handled an update-type event."""
@@ -393,11 +418,13 @@ def run_fit_sim(ctx, model, cb, cbspec, oracle, op, state):
   ok, _ = g("on_train_begin", cb.on_train_begin)
   if not ok:
     return
+  oracle.observe("train_begin")
   if op.get("dup_train_begin"):
     ctx.fault("duplicate_train_begin")
     ok, _ = g("on_train_begin", cb.on_train_begin)
     if not ok:
       return
+    oracle.observe("train_begin(duplicate)")
   stop = op.get("interrupt")
   for e in range(op["epochs"]):
     ok, _ = g("on_epoch_begin", cb.on_epoch_begin, e)
@@ -405,6 +432,7 @@ def run_fit_sim(ctx, model, cb, cbspec, oracle, op, state):
       return
     if cbspec["freq_type"] == "epoch":
       oracle.event("epoch_begin")
+    oracle.observe("epoch_begin")
     for s in range(op["steps"]):
       if stop is not None and [e, s] == list(stop):
         ctx.fault("interrupt_mid_epoch")
@@ -414,6 +442,7 @@ def run_fit_sim(ctx, model, cb, cbspec, oracle, op, state):
         return
       if cbspec["freq_type"] == "step":
         oracle.event("batch_begin")
+      oracle.observe("batch_begin")
       # the training step itself is a stub: perturb weights directly and run
       # a forward pass so that quantizers get built the way fit builds them
       if not state.get("called"):
@@ -493,15 +522,20 @@ def run_fit_real(ctx, model, cb, cbspec, oracle, op, state):
       super().__init__()
       self.events = []
 
+    def on_train_begin(self, logs=None):
+      oracle.observe("real:train_begin")
+
     def on_epoch_begin(self, epoch, logs=None):
       self.events.append("E")
       if cbspec["freq_type"] == "epoch":
         oracle.event("real:epoch_begin")
+      oracle.observe("real:epoch_begin")
 
     def on_train_batch_begin(self, batch, logs=None):
       self.events.append("b")
       if cbspec["freq_type"] == "step":
         oracle.event("real:batch_begin")
+      oracle.observe("real:batch_begin")
 
   rec = Recorder()
   if not getattr(model, "_verif_compiled", False):
